@@ -74,10 +74,26 @@ class Walker:
             ra, rb, sym = rb, ra, FLIP[sym]
         return ("cmp", sym, ra, rb)
 
+    VARIANT_IDX = {"None": 0, "Some": 1, "Ok": 0, "Err": 1}
+
     def eval_rvalue(self, rv, env):
         k = rv["k"]
         if k == "use" or k == "cast":
             return self.val_of_operand(rv["op"], env)
+        # locally known enum values (a flag kept as Option / Result instead of bool): followed through shared references,
+        # discriminant reads and is_some()/is_none()/is_ok()/is_err()
+        if k == "agg" and rv.get("variant") in self.VARIANT_IDX and not rv.get("tuple"):
+            return ("variant", rv["variant"], self.VARIANT_IDX[rv["variant"]])
+        if k == "discr":
+            v = env.get(place_str(rv["pl"]))
+            if v is not None and v[0] == "variant":
+                return ("discconst", v[2])
+            return None
+        if k == "ref" and not rv.get("mut"):
+            v = env.get(place_str(rv["pl"]))
+            if v is not None and v[0] == "variant":
+                return v
+            return None
         if k == "bin" and rv["op"] in CMP_OPS:
             return self.cmp_atom(CMP_OPS[rv["op"]], rv["a"], rv["b"])
         if k == "un" and rv["op"] == "Not":
@@ -123,6 +139,8 @@ class Walker:
                         else:
                             env.pop("%s.%d" % (key, i), None)
                     continue
+                if rv["k"] == "ref" and rv.get("mut"):
+                    env.pop(place_str(rv["pl"]), None)      # may be changed through the reference
                 v = self.eval_rvalue(rv, env)
                 if v is not None:
                     env[key] = v
@@ -156,6 +174,9 @@ class Walker:
                     for val, tg in t["targets"]:
                         self._dfs(tg, env, lits + [v], blocks, stop, onpath)
                     self._dfs(t["otherwise"], env, lits + [neg(v)], blocks, stop, onpath)
+            elif v is not None and v[0] == "discconst":
+                tg = dict(t["targets"]).get(v[1], t["otherwise"])
+                self._dfs(tg, env, lits, blocks, stop, onpath)
             else:
                 atoms = self.sl.of_operand(t["op"])
                 role = self.classify(atoms, t["op"]) + sfx
@@ -180,6 +201,13 @@ class Walker:
                     env2[dest] = self.cmp_atom(sym, t["args"][0], t["args"][1])
                     name = cn
                     break
+            if name is None and t["args"] and callee_def(t).rsplit("::", 1)[-1] in ("is_none", "is_some", "is_ok", "is_err"):
+                av = self.val_of_operand(t["args"][0], env)
+                if av is not None and av[0] == "variant":
+                    nm = callee_def(t).rsplit("::", 1)[-1]
+                    env2 = dict(env)
+                    env2[dest] = ("const", av[1] == {"is_none": "None", "is_some": "Some", "is_ok": "Ok", "is_err": "Err"}[nm])
+                    name = nm
             if name is None:
                 env2 = dict(env)
                 if t.get("dest_ty") == "bool":
